@@ -23,15 +23,17 @@ TECHNIQUE = ("Lean 4 theorems over an executable model of LeaseCheckingCrawler.p
              "documented meaning of the settings; production-path servers in cutoff-date mode are built and run under several "
              "process time zones (TZ unset/UTC/PST8PDT/America/Los_Angeles/JST-9/Asia/Tokyo/XYZ-5:30/Pacific/Kiritimati) "
              "with leases renewed within -5h..+13h of the cutoff, which must be midnight UTC of the configured date; monitor = the documented expiry predicate incl. the share-type filter")
-LEVEL_TEXT = ("disabled_never_deletes and deleted_iff_all_expired_partial (removed iff type enabled and every lease expired "
-              "under the documented predicate; exactly the expired leases are cancelled) are proved for all configurations, "
-              "clocks and lease lists whose cancel secrets are pairwise distinct and non-empty; the unguarded statement is "
-              "refuted by three proved counterexamples (shared cancel secret x2, lease-less share) which are known findings. "
-              "The model is tied to expirer.py by running the real crawler on real immutable and mutable share files.")
-LEVEL_NOTE = ("Partial: guard 'leases non-empty and cancel secrets distinct within a share'. The age-mode comparison is "
-              "modelled as repaired by fixes/C26-age-mode.diff; on the unrepaired tree the check reports the violation. "
-              "'Deleted within one crawl cycle' is the composition with C27 (every bucket is processed in each cycle) and is "
-              "exercised by whole-cycle runs, not stated as a separate theorem.")
+LEVEL_TEXT = ("disabled_never_deletes / disabled_bucket_untouched / not_enabled_in_tahoe_cfg_never_deletes and the full theorem "
+              "deleted_iff_all_expired (removed iff type enabled and every lease expired under the documented predicate; exactly the "
+              "expired leases are cancelled; bucket level: bucket_pass_deletes_exactly_expired) are proved for all configurations, "
+              "clocks and lease lists under the explicit hypothesis WellFormedLeases (>= 1 lease, pairwise distinct cancel secrets); "
+              "what the code does outside it is pinned by three proved counterexamples, which are the open known findings. The "
+              "tahoe.cfg -> crawler configuration step (defaults, required keys, share-type switches) is modelled and proved "
+              "(sharetype_switches_select_types, cutoff_and_override_reach_the_crawler). The model is tied to expirer.py / client.py "
+              "by running the real crawler on real immutable and mutable share files, built through the production configuration path.")
+LEVEL_NOTE = ("Hypothesis 'leases non-empty and cancel secrets distinct within a share' excludes exactly the three open findings. "
+              "'Deleted within one crawl cycle' is the composition of bucket_pass_deletes_exactly_expired with C27 "
+              "(covers_at_least_once); the glue (process_bucket override) is exercised by whole-cycle runs, not a theorem.")
 RULE = ("a case is one share file (type, 0..5 leases with renewal times placed at/around the configured threshold) processed by "
         "the real LeaseCheckingCrawler under one policy configuration and a patched clock; distinct = distinct "
         "(config, now - renewal offsets, cancel-secret pattern, share type); non-trivial = the share has at least one lease")
@@ -114,7 +116,7 @@ class Env:
         self.check_parsed(cfg, ss)
         return ss
 
-    def production_server(self, cfg, basedir):
+    def production_server(self, cfg, basedir, text=None):
         from twisted.application import service
         from allmydata.client import _Client, read_config
 
@@ -131,7 +133,7 @@ class Env:
 
         os.makedirs(os.path.join(basedir, "private"), 0o700)
         with open(os.path.join(basedir, "tahoe.cfg"), "w") as f:
-            f.write(tahoe_cfg(cfg))
+            f.write(tahoe_cfg(cfg) if text is None else text)
         config = read_config(basedir, "client.port")
         shell = NodeShell(config)
         ss = shell.get_anonymous_storage_server()
@@ -139,16 +141,20 @@ class Env:
         self.ctx.count("server:production-path")
         return ss
 
-    def check_parsed(self, cfg, ss):
-        """The configuration the lease checker ended up with vs the documented meaning of the settings."""
+    @staticmethod
+    def parsed_config(ss):
         lc = ss.lease_checker
         st = lc.sharetypes_to_expire
         if isinstance(st, (tuple, list, set, frozenset)) and all(isinstance(x, str) for x in st):
             types = ",".join(sorted(set(st))) or "-"
         else:
             types = "!not-a-collection-of-names:%r" % (st,)
-        got = "enabled=%s mode=%s override=%s cutoff=%s types=%s" % (
+        return "enabled=%s mode=%s override=%s cutoff=%s types=%s" % (
             bool(lc.expiration_enabled), lc.mode, lc.override_lease_duration, lc.cutoff_date, types)
+
+    def check_parsed(self, cfg, ss):
+        """The configuration the lease checker ended up with vs the documented meaning of the settings."""
+        got = self.parsed_config(ss)
         want = "enabled=%s mode=%s override=%s cutoff=%s types=%s" % (
             cfg["enabled"], cfg["mode"], cfg["override"] if cfg["mode"] == "age" else None,
             cfg["cutoff"] if cfg["mode"] != "age" else None,
@@ -641,6 +647,64 @@ def cycle_corpus():
     return res
 
 
+def run_settings(ctx, env):
+    """tahoe.cfg -> crawler configuration, including absent keys, unknown mode names and settings that do not belong
+    to the chosen mode: the production path (read_config + _Client.get_anonymous_storage_server +
+    LeaseCheckingCrawler.__init__) against the model's configFromSettings."""
+    import time as _t
+    from allmydata.node import MissingConfigEntry
+    grid = []
+    for en in (None, True, False):
+        for mode in (None, "age", "cutoff-date", "bogus"):
+            for ov in (None, 10 * DAY):
+                for cut in (None, MID - 40 * DAY):
+                    for imm in (None, True, False):
+                        for mut in (None, True, False):
+                            grid.append((en, mode, ov, cut, imm, mut))
+    n = ctx.budget(140, len(grid))
+    if n < len(grid):
+        ctx.rng.shuffle(grid)
+        grid = grid[:n]
+    impl, lines, cases = [], [], []
+    for (en, mode, ov, cut, imm, mut) in grid:
+        text = ["[node]", "nickname = verif", "[storage]", "enabled = true"]
+        for key, v in (("expire.enabled", en), ("expire.immutable", imm), ("expire.mutable", mut)):
+            if v is not None:
+                text.append("%s = %s" % (key, "true" if v else "false"))
+        if mode is not None:
+            text.append("expire.mode = %s" % mode)
+        if ov is not None:
+            text.append("expire.override_lease_duration = %d days" % (ov // DAY))
+        if cut is not None:
+            text.append("expire.cutoff_date = %s" % _t.strftime("%Y-%m-%d", _t.gmtime(cut)))
+        env.n += 1
+        d = os.path.join(env.root, "cfg%d" % env.n)
+        try:
+            ss = env.production_server(None, d, text="\n".join(text) + "\n")
+            got = env.parsed_config(ss)
+        except MissingConfigEntry as e:
+            got = "error:missing-mode" if "expire.mode" in str(e) else \
+                ("error:missing-cutoff" if "expire.cutoff_date" in str(e) else "error:missing:" + str(e)[:60])
+        except ValueError as e:
+            got = "error:bad-mode" if "GC mode" in str(e) else "error:ValueError:" + str(e)[:60]
+        shutil.rmtree(d, ignore_errors=True)
+
+        def ob(v):
+            return "-" if v is None else ("1" if v else "0")
+        lines.append("cfg %s %s %s %s %s %s" % (ob(en), mode or "-", "-" if ov is None else ov, "-" if cut is None else cut,
+                                                ob(imm), ob(mut)))
+        impl.append(got)
+        cases.append({"settings": text})
+        ctx.case(("settings", en, mode, ov, cut, imm, mut))
+        ctx.count("settings:" + (got.split(":")[1] if got.startswith("error") else "ok"))
+        # statement, first clause: nothing may be deleted unless expire.enabled is set - checked on the configuration
+        if not en and not got.startswith("error") and not got.startswith("enabled=False"):
+            ctx.violation("expiration is active although expire.enabled is absent/false", {"settings": text},
+                          "enabled-without-expire-enabled")
+    ctx.compare("tahoe.cfg expire.* settings -> configuration of LeaseCheckingCrawler (production path)",
+                cases, impl, ctx.model(lines))
+
+
 def run(ctx):
     common.setup_impl_path()
     env = Env(ctx)
@@ -672,6 +736,8 @@ def _run(ctx, env):
             shares = [gen_share(rng, cfg, now, 10 * k + 1, dup_p) for k in range(nsh)]
             via = (nsh == 1 and rng.random() < 0.5)
             cases.append((cfg, now, shares, via))
+    if not ctx.replay:
+        run_settings(ctx, env)
     impl, lines = [], []
     for i, (cfg, now, shares, via) in enumerate(cases):
         a, l = run_bucket(ctx, env, cfg, now, shares, via, i)
